@@ -110,6 +110,24 @@ def run_time_kinds(tier, funcs, index, enums, res):
     res["bounds"] += "; time primaries %r: each is built on its own timestamp (a: access, c: status change, m: modification) / hands exactly the (X, Y) its name spells to the matcher" % c11.TIME_WORDS
 
 
+def run_spelling(tier, funcs, index, enums, res):
+    """C18 "every reported path begins with its starting point exactly as it was spelled": the path %p / -print show, for every entry of the trees of c16_printf below the starting
+    points r, ./r/, -r, 'r x', under -P, -H and -L (under -H / -L the starting point is re-made as an explicit entry)"""
+    import c16_printf as c16
+    voc = [it for it in c16.items_vocab("quick") if it[0] == "%p"]
+    r = c16.explore(1, "nested", funcs, index, enums, "quick", vocab=voc)
+    res["functions_executed"].update(r.pop("functions_executed"))
+    for v in r.pop("violations"):
+        res["violations"].append({"key": "spelling | %%p | start %r" % (v.get("start"),), "summary": v["what"], "replayer": "printf_paths", "format": v.get("format"), "start": v.get("start"), "what": v["what"]})
+    for k, c in r.pop("unsupported").items():
+        res["unsupported"][k] = res["unsupported"].get(k, 0) + c
+    r["bound"] = "spelling of the starting point in the reported path, -P/-H/-L"
+    r["inputs_covered"] = r.pop("checks")
+    res["runs"].append(r)
+    res["target"] += "; WalkEntry::from_walkdir (-P/-H/-L) + Printf %p on the entries below the starting points r, ./r/, -r, 'r x' (symbolic names): the reported path starts with the starting point as spelled"
+    res["bounds"] += "; spelling: starting points %r, follow mode symbolic, names symbolic over ASCII" % c16.STARTS
+
+
 def run_wiring(tier, funcs, index, enums, res):
     import c06_wiring
     r = c06_wiring.explore(funcs, index, enums)
@@ -611,6 +629,7 @@ def main():
             run_walk(tier, funcs, index, enums, res, text)
         else:
             run_files0(tier, funcs, index, enums, res)
+            run_spelling(tier, funcs, index, enums, res)
     elif prop == "C03":
         res["target"], res["bounds"] = "", ""
         run_walk(tier, funcs, index, enums, res, text)
